@@ -300,7 +300,13 @@ func newFloatFuncAttr(name string, f func(float64) float64) rel.Attr {
 	})
 }
 
-func parseGrammar(_ context.Context, v rel.Value) (rel.Value, error) {
+func parseGrammar(_ context.Context, v rel.Value) (_ rel.Value, err error) {
+	// The conversion and the grammar compiler panic on values that are not a grammar AST.
+	defer func() {
+		if r := recover(); r != nil {
+			err = fmt.Errorf("//grammar.parse: not a grammar: %v", r)
+		}
+	}()
 	astNode := rel.ASTNodeFromValue(v).(ast.Branch)
 	g := wbnf.NewFromAst(astNode)
 	parsers := g.Compile(astNode)
